@@ -626,6 +626,11 @@ func init() {
 }
 
 func init() {
+	ext("(*net/http.Request).Context", "http.Request.Context(): a non-nil context", func(c *ExtCtx) Val {
+		v := c.fresh(0, "reqctx")
+		c.st.assume("(distinct " + v.T + " 0)")
+		return v
+	})
 	ext("net/http.NewRequest", "http.NewRequest: (req, err) with err == nil ==> req != nil && req.Header != nil", func(c *ExtCtx) Val {
 		r := c.fresh(0, "httpreq")
 		e := c.fresh(1, "httpreq.err")
